@@ -32,6 +32,8 @@ type PersistedJob struct {
 
 	Variables map[string]interface{} `json:",omitempty"`
 	User      string                 `json:",omitempty"`
+	// LastError is the error message of the job (e.g. the error of the last failed task), if any
+	LastError *string `json:",omitempty"`
 
 	Tasks []PersistedTask
 }
